@@ -1,6 +1,6 @@
 """C19 - DAG files are well formed and survive dump / read / convert (partial, structural clauses only)."""
 from .. import lib
-from ..lib import (call_sites, same_value, describe, expr_str, affine, affine_str, is_load_of)
+from ..lib import (call_sites, same_value, describe, expr_str, affine, affine_str, is_load_of, ret_cases)
 from ..ir import const_int
 
 META = {
@@ -713,6 +713,125 @@ def rule4_strings(ctx, w):
         ctx.ob('C19.4', 'append exactly when the string is new', okg, 'idx == t->n <=> not found', loc=apps[0].loc)
         ctx.ob('C19.4', 'intern returns the looked-up index', all(same_value(g, r.ops[0], finds[0].id) for r in g.exits() if r.ops) and bool(g.exits()),
                'the index of an existing string, or n (the slot the append fills)', loc=g.loc)
+    # find: walks the list from the head, counts cells from 0 and returns the count of the first cell whose string equals s (or the
+    # number of cells); flatten: sizes, offsets and copies agree cell by cell
+    CELL = 'dr_string_table_cell.'
+
+    def list_walks(fn):
+        """[(cell_phi, loop)] for loops `for (c = t->head; c; c = c->next)`"""
+        out = []
+        for ph in fn.order:
+            if ph.op != 'phi' or len(ph.d['incoming']) != 2:
+                continue
+            vals = [fn.get(fn.strip(v)) for v, _b in ph.d['incoming']]
+            if all(x is not None and x.op == 'load' for x in vals):
+                flds = sorted(fn.field(x) for x in vals)
+                nxt = [x for x in vals if fn.field(x) == CELL + 'next']
+                if flds == sorted([ST + 'head', CELL + 'next']) and fn.strip(fn.ap(nxt[0].ops[0]).root) == ph.id:
+                    li = fn.loop_of_block(ph.block.id)
+                    if li is not None and fn.loops[li]['header'] == ph.block.id:
+                        out.append((ph, fn.loops[li]))
+        return out
+
+    def counter(fn, L, start, step_ok):
+        """header phis of loop L that start at `start` and whose latch value is phi + step with step_ok(affine of the step)"""
+        out = []
+        for ph in fn.blocks[L['header']].insts:
+            if ph.op != 'phi' or len(ph.d['incoming']) != 2:
+                continue
+            init = [v for v, b in ph.d['incoming'] if b not in L['blocks']]
+            back = [v for v, b in ph.d['incoming'] if b in L['blocks']]
+            if len(init) != 1 or len(back) != 1 or not start(init[0]):
+                continue
+            d = lib.affine_diff(fn, back[0], ph.id)
+            if step_ok(d):
+                out.append(ph)
+        return out
+
+    def strlen_plus_1(fn, cellphi):
+        def ok(d):
+            ks = [k for k in d if k != '']
+            if len(ks) != 1 or d[ks[0]] != 1 or d.get('', 0) != 1:
+                return False
+            c = fn.insts.get(ks[0])
+            return c is not None and c.op == 'call' and c.callee == 'strlen' and \
+                is_load_of(fn, c.args[0], CELL + 's') and fn.strip(fn.ap(fn.get(fn.strip(c.args[0])).ops[0]).root) == cellphi.id
+        return ok
+    one = lambda d: set(d) <= {''} and d.get('', 0) == 1
+    zero = lambda v: const_int(v) == 0
+    fd = ctx.need_fn(w, 'dr_string_table_find')
+    wk = list_walks(fd)
+    ctx.ob('C19.4', 'find walks the list from the head', len(wk) == 1, 'for (c = t->head; c; c = c->next)', loc=fd.loc)
+    if len(wk) == 1:
+        cph, L = wk[0]
+        idx = counter(fd, L, zero, one)
+        ctx.ob('C19.4', 'find counts cells from 0', len(idx) == 1, 'the index advances by one per cell', loc=cph.loc)
+        cmpc = [c for c in call_sites(fd, 'strcmp') if c.block.id in L['blocks']]
+        okc = len(cmpc) == 1 and any(is_load_of(fd, a_, CELL + 's') and fd.strip(fd.ap(fd.get(fd.strip(a_)).ops[0]).root) == cph.id
+                                     for a_ in cmpc[0].args) and any(same_value(fd, a_, 'a1') for a_ in cmpc[0].args)
+        ctx.ob('C19.4', 'find compares the cell\'s string with the argument', okc, 'strcmp(c->s, s)', loc=(cmpc[0].loc if cmpc else fd.loc))
+        if len(idx) == 1 and okc:
+            hits = [ic for ic in fd.users(cmpc[0].id) if ic.op == 'icmp' and ic.pred in ('eq', 'ne') and const_int(ic.ops[1]) == 0]
+            for val, anchor in ret_cases(fd):
+                isidx = isinstance(val, str) and fd.strip(val) == idx[0].id
+                ctx.ob('C19.4', 'find returns the running index', isidx, 'the index of the matching cell, or the number of cells', loc=anchor.loc)
+                atend = any(fd.edge_dominates(br.block.id, nl, anchor) for br, nn, nl in lib.null_tests(fd, cph.id) if nn != nl)
+                ctx.ob('C19.4', 'find stops only at an equal string or at the end of the list',
+                       atend or any(fd.on_edge(c_, p_ == (ic.pred == 'eq'), anchor) for ic in hits for c_, p_ in lib.cond_chain(fd, ic.id)),
+                       'early return on strcmp == 0, otherwise the number of cells', loc=anchor.loc)
+    ft = ctx.need_fn(w, 'dr_string_table_flatten')
+    wk = list_walks(ft)
+    ctx.ob('C19.4', 'flatten walks the list twice (measure, copy)', len(wk) == 2, 'two list traversals', loc=ft.loc)
+    mal = [c for c in ft.calls() if c.callee == 'dr_malloc']
+    hdr = w.structs.get('dr_pi_string_table', {}).get('size')
+    if len(wk) == 2 and len(mal) == 1 and hdr:
+        (c1, L1), (c2, L2) = sorted(wk, key=lambda x: x[1]['header'])
+        nph = counter(ft, L1, zero, one)
+        bph = counter(ft, L1, zero, strlen_plus_1(ft, c1))
+        ctx.ob('C19.4', 'flatten measures every cell: count + 1, bytes + strlen + 1', len(nph) == 1 and len(bph) == 1,
+               'the terminating NUL of each string is part of the character array', loc=c1.loc)
+        if len(nph) == 1 and len(bph) == 1:
+            sz = affine(ft, mal[0].args[0])
+            ctx.ob('C19.4', 'flatten allocates header + 8 n + bytes', {k: v for k, v in sz.items() if v != 0} == {'': hdr, nph[0].id: 8, bph[0].id: 1},
+                   'one block: dr_pi_string_table, the index array, the characters', loc=mal[0].loc, detail=affine_str(affine(ft, mal[0].args[0])))
+            sI = [st for st in ft.stores_to('dr_pi_string_table.I')]
+            sC = [st for st in ft.stores_to('dr_pi_string_table.C')]
+            sN = [st for st in ft.stores_to('dr_pi_string_table.n')]
+            sZ = [st for st in ft.stores_to('dr_pi_string_table.sz')]
+            okI = len(sI) == 1 and affine(ft, sI[0].ops[0]) == {mal[0].id: 1, '': hdr}
+            okC = len(sC) == 1 and affine(ft, sC[0].ops[0]) == {mal[0].id: 1, '': hdr, nph[0].id: 8}
+            ctx.ob('C19.4', 'flatten: I = block + header, C = I + 8 n', okI and okC, 'index array then character array', loc=mal[0].loc)
+            nz = lambda d: {k: v for k, v in d.items() if v != 0}
+            ctx.ob('C19.4', 'flatten: n and sz describe the block', len(sN) == 1 and nz(affine(ft, sN[0].ops[0])) == {nph[0].id: 1} and
+                   len(sZ) == 1 and lib.same_expr(ft, sZ[0].ops[0], mal[0].args[0]),
+                   'h->n = number of cells, h->sz = allocated bytes (the dump writes sz bytes)', loc=mal[0].loc)
+            if okC:
+                Cv = sC[0].ops[0]
+                pph = counter(ft, L2, lambda v: lib.same_expr(ft, v, Cv), strlen_plus_1(ft, c2))
+                iph = counter(ft, L2, zero, one)
+                ctx.ob('C19.4', 'flatten copies cell by cell: cursor + strlen + 1, index + 1', len(pph) == 1 and len(iph) == 1,
+                       'the copy cursor starts at C and advances exactly as the measuring pass counted', loc=c2.loc)
+                if len(pph) == 1 and len(iph) == 1:
+                    cp = [c for c in ft.calls() if c.block.id in L2['blocks'] and
+                          (c.callee == 'strcpy' or (c.callee or '').startswith(('llvm.memcpy', 'memcpy')))]
+                    okcp = len(cp) == 1 and ft.strip(cp[0].args[0]) == pph[0].id and is_load_of(ft, cp[0].args[1], CELL + 's') and \
+                        ft.strip(ft.ap(ft.get(ft.strip(cp[0].args[1])).ops[0]).root) == c2.id
+                    if okcp and cp[0].callee != 'strcpy':
+                        # a counted copy must take the string with its NUL: length == strlen(c->s) + 1
+                        okcp = strlen_plus_1(ft, c2)(affine(ft, cp[0].args[2]))
+                    ctx.ob('C19.4', 'flatten: strcpy(cursor, c->s)', okcp, 'each string, with its terminator, is copied to the cursor', loc=(cp[0].loc if cp else c2.loc))
+                    def into_I(st):
+                        g_ = ft.get(ft.strip(st.ops[1]))
+                        return g_ is not None and g_.op == 'getelementptr' and ft.strip(g_.d['base']) == ft.strip(sI[0].ops[0])
+                    offs = [st for st in ft.order if st.op == 'store' and st.block.id in L2['blocks'] and into_I(st)] if okI else []
+                    oko = len(offs) == 1 and lib.affine_diff(ft, offs[0].ops[0], pph[0].id) == \
+                        {k: -v for k, v in affine(ft, Cv).items() if v != 0}
+                    oki = False
+                    if len(offs) == 1:
+                        g_ = ft.get(ft.strip(offs[0].ops[1]))
+                        oki = g_ is not None and g_.op == 'getelementptr' and len(g_.d['path']) == 1 and 'p' in g_.d['path'][0] and \
+                            ft.strip(g_.d['path'][0]['p']) == iph[0].id
+                    ctx.ob('C19.4', 'flatten: I[i] = cursor - C', oko and oki, 'the i-th offset is where the i-th string was copied', loc=(offs[0].loc if offs else c2.loc))
     # positions: the file index written for the start / end position of a copied node is the interned *own* file name of that
     # position of the source node (dr_copy_dag_node_1 from the recorded node, the shrinking copy from the source DAG's table)
     from ..ir import EdgePoint, iter_refs
@@ -780,7 +899,7 @@ def rule4_strings(ctx, w):
                    'the file index stored for a position names that position\'s own file (a node that starts in one source file and '
                    'ends in another must read back with both names)', loc=st.loc, detail=why)
     ctx.ob('C19.4', 'file-index stores found', nsites >= 4, 'start and end index in the recording copy and in the shrinking copy', loc=f.loc)
-    ctx.floor('C19.4', 15)
+    ctx.floor('C19.4', 27)
 
 
 def rule5_growth(ctx):
@@ -949,6 +1068,16 @@ def rule5_growth(ctx):
 DUMP = 'src/profiler/dr_dump.c'
 READ = 'src/profiler/read_dag.c'
 MUTANTS = [
+    {'name': 'string table flatten forgets the terminating NUL when measuring', 'expect': 'C19.4',
+     'edits': [('src/profiler/dr_dump.c', "    str_bytes += strlen(c->s) + 1;", "    str_bytes += strlen(c->s);")]},
+    {'name': 'string table flatten records offsets relative to the block, not to C', 'expect': 'C19.4',
+     'edits': [('src/profiler/dr_dump.c', "      I[i] = p - C;", "      I[i] = p - (char *)a;")]},
+    {'name': 'string table find returns one past the matching index', 'expect': 'C19.4',
+     'edits': [('src/profiler/dr_dump.c', "    if (strcmp(c->s, s) == 0) return i;\n    i++;", "    i++;\n    if (strcmp(c->s, s) == 0) return i;")]},
+    {'name': 'string table find stops at the first different string', 'expect': 'C19.4',
+     'edits': [('src/profiler/dr_dump.c', "    if (strcmp(c->s, s) == 0) return i;", "    if (strcmp(c->s, s) != 0) return i;")]},
+    {'name': 'string table flatten advances the cursor without the NUL', 'expect': 'C19.4',
+     'edits': [('src/profiler/dr_dump.c', "      p += strlen(c->s) + 1;", "      p += strlen(c->s);")]},
     {'name': 'copied node takes its end file index from the start position (seed3 C19/m2)', 'expect': 'C19.4',
      'edits': [('src/profiler/dr_dump.c', "  p->info.end.pos.file_idx\n    = dr_string_table_intern(st, g->info.end.pos.file);", "  p->info.end.pos.file_idx\n    = dr_string_table_intern(st, g->info.start.pos.file);")]},
     {'name': 'dump writes m before n', 'expect': 'C19.1',
